@@ -930,9 +930,84 @@ Proof.
   intros E c n pt Eb Ec. simpl in Eb. inv Eb. simpl in E. unfold toy_encrypt in E. rewrite strip_unary_app in E. discriminate.
 Qed.
 
+Lemma toy_hash_inj c n p n' p' : toy_hash c n p = toy_hash c n' p' -> n = n' /\ p = p'.
+Proof.
+  unfold toy_hash. intros H. injection H as H.
+  apply (f_equal strip_unary) in H. rewrite !strip_unary_app in H. injection H as H.
+  apply (f_equal toy_de) in H.
+  pose proof (co_serde _ (toy_crypto_ok [] [])) as R. unfold serde_ok in R. cbn [p_de p_ser toy] in R.
+  rewrite !R in H. now inv H.
+Qed.
+
 Lemma toy_made_from norms creds c n0 p0 : nlookup c creds = Some (n0, p0) -> made_from (toy norms creds) c n0 p0.
 Proof.
-  intros E n p. simpl. unfold toy_pw_ok. rewrite E. rewrite andb_true_iff, !String.eqb_eq. tauto.
+  intros E n p. cbn [p_pw_ok toy]. unfold toy_pw_ok, toy_pw_ok_sh, login_ok, toy_stored, shape_of, hash_matches.
+  rewrite E. cbn [nlookup apply_shape]. rewrite String.eqb_eq. split.
+  - apply toy_hash_inj.
+  - intros [-> ->]. reflexivity.
+Qed.
+
+(** ** The comparison that decides a login is equality of texts (config_file.rs:236) *)
+Theorem hash_matches_iff : forall computed configured, hash_matches computed configured = true <-> computed = configured.
+Proof. intros a b. unfold hash_matches. apply String.eqb_eq. Qed.
+
+(** A configured text of another length than the computed one never matches - not an empty one, not a cut-short
+    copy of the right hash, not a copy with something appended. *)
+Theorem hash_other_length_never_matches : forall computed configured,
+  String.length computed <> String.length configured -> hash_matches computed configured = false.
+Proof.
+  intros a b H. destruct (hash_matches a b) eqn:E; [|reflexivity].
+  apply hash_matches_iff in E. subst. contradiction.
+Qed.
+
+Theorem login_ok_iff : forall hash stored c name pw,
+  login_ok hash stored c name pw = true <-> stored c = Some (hash c name pw).
+Proof.
+  intros. unfold login_ok. destruct (stored c) as [t|]; split; intros H; try discriminate.
+  - apply hash_matches_iff in H. now subst.
+  - inv H. now apply hash_matches_iff.
+Qed.
+
+(** hex::encode of 32 bytes has 64 characters: an entry whose configured text has any other length admits no
+    password at all. *)
+Theorem login_ok_other_length : forall hash stored c configured,
+  stored c = Some configured ->
+  (forall name pw, String.length (hash c name pw) = 64%nat) -> String.length configured <> 64%nat ->
+  forall name pw, login_ok hash stored c name pw = false.
+Proof.
+  intros hash stored c t Es Hl Hn name pw. unfold login_ok. rewrite Es.
+  apply hash_other_length_never_matches. rewrite Hl. auto.
+Qed.
+
+Example login_ok_other_length_nonvacuous :
+  let hash := fun (_ : N) (_ _ : string) => "0123456789abcdef0123456789abcdef0123456789abcdef0123456789abcdef" in
+  (forall name pw, String.length (hash 1%N name pw) = 64%nat)
+  /\ login_ok hash (fun _ => Some "0123456789abcdef") 1%N "erin" "pwE" = false
+  /\ login_ok hash (fun _ => Some (hash 1%N "erin" "pwE")) 1%N "erin" "pwE" = true.
+Proof. repeat split. Qed.
+
+(** The entry "disabled" by an empty password_hash: no password logs in, the empty one included. *)
+Example empty_hash_never_matches : forall hash c,
+  (forall name pw, String.length (hash c name pw) = 64%nat) ->
+  forall name pw, login_ok hash (fun _ => Some EmptyString) c name pw = false.
+Proof.
+  intros hash c Hl name pw. apply (login_ok_other_length hash (fun _ => Some EmptyString) c EmptyString); auto.
+Qed.
+
+(** In the chain: where the password check of the provider is that comparison, a user whose configured text has
+    another length than a hash cannot log in, whatever is submitted. *)
+Theorem login_refused_for_other_length : forall P hash stored st name pw b d configured,
+  (forall c n p, p_pw_ok P c n p = login_ok hash stored c n p) ->
+  cf_auth (i_cfg st) = ConfigFile ->
+  alookup name (cf_users (i_cfg st)) = Some d -> stored (u_cred d) = Some configured ->
+  (forall n p, String.length (hash (u_cred d) n p) = 64%nat) -> String.length configured <> 64%nat ->
+  forall st' tok id rn, login P st (Some (name, pw)) b <> (st', LOk tok id rn).
+Proof.
+  intros P hash stored st name pw b d t HP Ea Eu Es Hl Hn st' tok id rn H.
+  assert (X : exists st' tok, login P st (Some (name, pw)) b = (st', LOk tok id rn)) by eauto.
+  apply (login_iff P st name pw b id rn Ea) in X. destruct X as (d' & r & E0 & _ & Ep & _).
+  rewrite Eu in E0. inv E0. rewrite HP in Ep.
+  rewrite (login_ok_other_length hash stored (u_cred d') t Es Hl Hn) in Ep. discriminate.
 Qed.
 
 Example auth_identity_nonvacuous :
